@@ -331,7 +331,9 @@ def gex_lost_probe_tasks():
     for sub, style, banner in (((768, 1024, 2048), P.PREFER, 'other'), ((3072, 4096), P.OPENSSH, 'openssh'), ((768, 1536), P.PREFER, 'other'), ((1024, 2048), P.STRICT, 'other')):
         conn_alg, _n = c12._baseline(sub, style, banner)
         for fconn in sorted(c for c in conn_alg if conn_alg[c]):
-            for fmsg, fault in ((-1, ('refuse',)), (0, ('reset',)), (0, ('trunc_close', 0)), (1, ('trunc_close', 9)), (1, ('trunc_stall', 9)), (0, ('trunc_close', 5))):
+            # ... or the connection is fine and the group never arrives (closed, stalled, another message in its place)
+            for fmsg, fault in ((-1, ('refuse',)), (0, ('reset',)), (0, ('trunc_close', 0)), (1, ('trunc_close', 9)), (1, ('trunc_stall', 9)), (0, ('trunc_close', 5)),
+                                (2, ('trunc_close', 0)), (2, ('trunc_stall', 0)), (2, ('type', 1))):
                 out.append((sub, style, banner, fconn, fmsg, fault))
     return out
 
@@ -343,7 +345,7 @@ def work_gex_lost_probe(chunk, st):
         alg = conn_alg[fconn]
         k = len([i for i in conn_alg if conn_alg[i] == alg and i < fconn])
         gex = c12.make_server(sub, style, 'both', banner).gex
-        want = c12.model_audit(gex, banner, (alg, k, 'setup'))
+        want = c12.model_audit(gex, banner, (alg, k, 'exchange' if fmsg == 2 else 'setup'))
         free = c12.model_audit(gex, banner)
         measured = {a: want[a][1] for a in want}
         cands = sorted(set(v for v in list(measured.values()) + [free[a][1] for a in free] if v))
